@@ -2,7 +2,7 @@ INIT OInit
 NEXT ONext
 CONSTANTS
   Species = {"A", "B", "C", "D"}
-  Catalog <- Cat16
+  Catalog <- Cat8
   MaxR = 2
   KVals <- K3
   Orders <- OrdOne
